@@ -9,10 +9,14 @@ from .. import core
 ANG = {0: (1, 0, 1), 1: (4, 3, 5), 2: (3, 4, 5), 3: (0, 1, 1), 4: (4, -3, 5), 5: (-1, 0, 1), 6: (-3, 4, 5)}
 
 
-def build(sh, cx, cy, q, tx=0, ty=0):
+def build(sh, cx, cy, q, tx=0, ty=0, theta_unit=None):
     import photutils.aperture as A
     c, s, n = ANG[sh['ang']]
     th = math.atan2(s, c)
+    if theta_unit and sh['ang'] != 0:      # the rotation angle given as a Quantity / Angle in another unit (the same angle)
+        import astropy.units as u
+        from astropy.coordinates import Angle
+        th = {'deg': math.degrees(th) * u.deg, 'arcmin': math.degrees(th) * 60.0 * u.arcmin, 'angle': Angle(math.degrees(th), 'deg'), 'rad': th * u.rad}[theta_unit]
     pos = (cx / q + tx, cy / q + ty)
     p = [sh['p%d' % k] / q for k in (1, 2, 3, 4)]
     k = sh['kind']
@@ -39,7 +43,7 @@ def replay_mask(args):
     sig = {'kind': sh['kind'], 'ang': sh['ang'], 's': c['s'], 'boxtie': c['boxtie']}
     out = []
     try:
-        ap = build(sh, c['cx'], c['cy'], c['q'], tx, ty)
+        ap = build(sh, c['cx'], c['cy'], c['q'], tx, ty, theta_unit=[None, 'deg', None, 'angle', 'arcmin', 'rad'][idx % 6])
         bb = ap.bbox
         got = [bb.ixmin - tx, bb.ixmax - tx, bb.iymin - ty, bb.iymax - ty]
         rotated = (sh['kind'] not in ('circle', 'cann') and sh['ang'] != 0) or c['s'] not in (1, 2, 4, 8)
